@@ -196,8 +196,45 @@ func ruleSemantic(c *Ctx) {
 		return cal != nil && cal.Signature.Params().Len() == 1 && typeHasSuffix(cal.Signature.Params().At(0).Type(), "[]"+modPath+"/internal/server.semanticToken") &&
 			cal.Signature.Results().Len() == 1 && types.TypeString(cal.Signature.Results().At(0).Type(), nil) == "[]uint32"
 	}
+	// the token cache, by role: a struct of the server package with a map from document URIs to (pointers to)
+	// records that hold an encoded token array ([]uint32)
+	var cacheType types.Type
+	for _, n := range spk.Pkg.Scope().Names() {
+		tn, ok := spk.Pkg.Scope().Lookup(n).(*types.TypeName)
+		if !ok {
+			continue
+		}
+		st, ok := tn.Type().Underlying().(*types.Struct)
+		if !ok {
+			continue
+		}
+		for i := 0; i < st.NumFields(); i++ {
+			m, ok := st.Field(i).Type().Underlying().(*types.Map)
+			if !ok || !strings.HasSuffix(types.TypeString(m.Key(), nil), "DocumentURI") {
+				continue
+			}
+			et := m.Elem()
+			if pt, ok := et.Underlying().(*types.Pointer); ok {
+				et = pt.Elem()
+			}
+			if est, ok := et.Underlying().(*types.Struct); ok {
+				for j := 0; j < est.NumFields(); j++ {
+					if types.TypeString(est.Field(j).Type(), nil) == "[]uint32" {
+						cacheType = tn.Type()
+					}
+				}
+			}
+		}
+	}
 	isCacheMethod := func(cal *ssa.Function) bool {
-		return cal != nil && cal.Signature.Recv() != nil && typeHasSuffix(cal.Signature.Recv().Type(), "server.semanticTokensCache")
+		if cal == nil || cal.Signature.Recv() == nil || cacheType == nil {
+			return false
+		}
+		rt := cal.Signature.Recv().Type()
+		if pt, ok := rt.Underlying().(*types.Pointer); ok {
+			rt = pt.Elem()
+		}
+		return types.Identical(rt, cacheType)
 	}
 	nH := 0
 	for _, f := range c.P.ModuleFuncs() {
@@ -247,6 +284,27 @@ func ruleSemantic(c *Ctx) {
 				if call, ok := x.Tuple.(*ssa.Call); ok && x.Index == 0 {
 					if cal := call.Common().StaticCallee(); cal != nil && calleeNameIs(cal, "server.Server).GetDocument") {
 						return true
+					}
+				}
+				// a helper that hands the document text on unchanged (every return statement)
+				if call, ok := x.Tuple.(*ssa.Call); ok {
+					if cal := call.Common().StaticCallee(); cal != nil && cal.Blocks != nil && inModule(cal) && len(seen) < 16 {
+						n := 0
+						for _, b := range cal.Blocks {
+							for _, ins := range b.Instrs {
+								if r, ok := ins.(*ssa.Return); ok && x.Index < len(r.Results) {
+									n++
+									rv := unspillResult(r.Results[x.Index], b)
+									if k, isConst := rv.(*ssa.Const); isConst && k.Value != nil && k.Value.Kind() == constant.String && constant.StringVal(k.Value) == "" {
+										continue // "" next to a 'not found' flag
+									}
+									if !exactDoc(rv, seen) {
+										return false
+									}
+								}
+							}
+						}
+						return n > 0
 					}
 				}
 			case *ssa.Phi:
